@@ -76,6 +76,42 @@ def make_scratch(repo, dest):
     open(os.path.join(dest, '.cargo', 'config.toml'), 'w').write('[net]\noffline = true\n')
 
 
+def concrete_playback(h, cmd, scratch, env, timeout):
+    """The verifier's counterexample replayed against the real code: Kani writes a unit test holding the concrete values of
+    every kani::any() of the failing trace into the scratch copy (`--concrete-playback=inplace`), and `cargo kani playback`
+    runs that test natively (no model checker involved) on the same sources. Returns dict(test, values, reproduced, tail)."""
+    try:
+        p = subprocess.run(cmd + ['-Z', 'concrete-playback', '--concrete-playback=inplace'], cwd=scratch, env=env,
+                           capture_output=True, text=True, timeout=timeout)
+        out = p.stdout + '\n' + p.stderr
+        names = re.findall(r'^\s*- (kani_concrete_playback_\w+)', out, re.M)
+        if not names:
+            return dict(test=None, reproduced=None, tail=out[-800:], note='Kani produced no concrete playback test for this failure')
+        name = names[0]
+        src = ''
+        for root, _, files in os.walk(os.path.join(scratch, 'src')):
+            for fn in files:
+                t = open(os.path.join(root, fn)).read()
+                i = t.find('fn %s()' % name)
+                if i >= 0:
+                    a = t.rfind('#[test]', 0, i)
+                    b = t.find('concrete_playback_run', i)
+                    b = t.find('}', b) + 1 if b >= 0 else i + 2000
+                    src = t[a:b]
+        values = re.findall(r'^\s*// (.*)$', src, re.M)
+        q = subprocess.run(['cargo', 'kani', 'playback', '-Z', 'concrete-playback', '--', name], cwd=scratch, env=env,
+                           capture_output=True, text=True, timeout=timeout)
+        qout = q.stdout + '\n' + q.stderr
+        reproduced = ('test result: FAILED' in qout) and (name in qout)
+        panic = re.findall(r"panicked at [^\n]*\n[^\n]*", qout)
+        return dict(test=src[:4000], test_name=name, values=values[:40], reproduced=reproduced,
+                    native_panic=(panic[0] if panic else None),
+                    tail=qout[-600:] if not reproduced else '',
+                    cmd='cargo kani playback -Z concrete-playback -- ' + name)
+    except Exception as e:  # a playback problem never changes the verdict of the harness itself
+        return dict(test=None, reproduced=None, note='playback failed to run: %s' % e)
+
+
 def run_harnesses(harnesses, repo='/repo', timeout=1800, extra_args=()):
     """harnesses: list of names. Returns {name: dict(status, time_s, checks, output_tail, cex)}"""
     os.makedirs(os.path.join(CACHE, 'kani'), exist_ok=True)
@@ -132,9 +168,12 @@ def run_harnesses(harnesses, repo='/repo', timeout=1800, extra_args=()):
                     mm = re.search(r'\*\* (\d+) of (\d+) failed', out)
                     total = int(mm.group(2)) if mm else None
                     vt = re.search(r'Verification Time: ([\d.]+)s', out)
+                    playback = None
+                    if status == 'failed' and not exp and os.environ.get('VERIF_KANI_PLAYBACK', '1') == '1':
+                        playback = concrete_playback(h, cmd, scratch, env, timeout)
                     cached[h] = dict(status=status, time_s=round(dt, 1), verification_time_s=float(vt.group(1)) if vt else None,
                                      checks=total, failed_checks=failed_checks[:10], cmd=' '.join(cmd),
-                                     output_tail=out[-3000:] if status != 'success' else '')
+                                     output_tail=out[-3000:] if status != 'success' else '', playback=playback)
                     json.dump(cached, open(cache_file, 'w'), indent=1)
             finally:
                 shutil.rmtree(scratch, ignore_errors=True)
